@@ -756,6 +756,45 @@ Proof.
   apply H. apply NoDup_fst_map_to_list.
 Qed.
 
+Lemma rebuild_run_ops nsrc st :
+  rebuild nsrc st =
+  run_ops false (empty_set nsrc) (map row_op (sort_by_ts (fun r : N * (N * bool) => r.2.1) (meta_list st))).
+Proof.
+  unfold rebuild, run_ops. rewrite foldl_fmap. generalize (empty_set nsrc).
+  induction (sort_by_ts (fun r : N * (N * bool) => r.2.1) (meta_list st)) as [|[k' [t b]] rows' IHr]; intros s0; [reflexivity|].
+  cbn [foldl]. rewrite <- IHr. unfold row_op. cbn [fst snd]. destruct b; reflexivity.
+Qed.
+
+Lemma run_ops_length legacy ops : forall s,
+  length (maxs (versions (run_ops legacy s ops))) = length (maxs (versions s)).
+Proof.
+  induction ops as [|o ops IH]; intros s; [reflexivity|].
+  unfold run_ops in *. cbn [foldl]. rewrite IH. apply apply_op_length.
+Qed.
+
+Lemma run_ops_MaxsFrom legacy ops S : forall s,
+  MaxsFrom (versions s) S -> Forall (fun o => op_ts o ∈ S) ops ->
+  MaxsFrom (versions (run_ops legacy s ops)) S.
+Proof.
+  induction ops as [|o ops IH]; intros s Hs Hall; [exact Hs|].
+  inversion Hall as [|? ? Ho Hall']; subst. unfold run_ops in *. cbn [foldl]. apply IH; [|exact Hall'].
+  eapply MaxsFrom_mono; [apply apply_op_MaxsFrom; exact Hs|].
+  intros y Hy. apply elem_of_cons in Hy as [->|Hy]; assumption.
+Qed.
+
+(** The stamps a rebuilt set records are stamps of the store's rows. *)
+Lemma rebuild_MaxsFrom nsrc st S :
+  (forall k t b, meta st k = Some (t, b) -> t ∈ S) -> MaxsFrom (versions (rebuild nsrc st)) S.
+Proof.
+  intros Hst. rewrite rebuild_run_ops. apply run_ops_MaxsFrom; [apply MaxsFrom_empty|].
+  rewrite Forall_forall. intros o Ho. apply elem_of_list_fmap in Ho as ([k [t b]] & -> & Hin).
+  rewrite sort_perm in Hin. apply meta_list_spec in Hin.
+  unfold row_op. cbn [fst snd]. destruct b; cbn [op_ts]; eapply Hst; exact Hin.
+Qed.
+
+Lemma rebuild_length nsrc st : NSRC (rebuild nsrc st) = nsrc.
+Proof. unfold NSRC. rewrite rebuild_run_ops, run_ops_length. cbn. apply replicate_length. Qed.
+
 Lemma rebuild_view nsrc st k :
   (nsrc > 0)%nat -> StoreValid st ->
   Inv (rebuild nsrc st) /\ view (rebuild nsrc st) k = meta st k.
